@@ -76,9 +76,26 @@ struct std_string *_ZNSt7__cxx1112basic_stringIcSt11char_traitsIcESaIcEE6assignE
 { LIVE(this, 32, "std::string::assign(&&)"); LIVE(s, 32, "std::string::assign(&&)(arg)"); CW(this, 0) = CW(s, 0); CW(this, 1) = CW(s, 1); CW(this, 2) = CW(s, 2); CW(this, 3) = CW(s, 3); if (this != s) { SZ(s) = __g2c_nondet_ulong(); __CPROVER_assume(SZ(s) <= MAXLEN); } return this; }
 void _ZNSt7__cxx1112basic_stringIcSt11char_traitsIcESaIcEEC1EOS4_(struct std_string *this, struct std_string *s)
 { LIVE(s, 32, "std::string(string&&)"); CW(this, 0) = CW(s, 0); CW(this, 1) = CW(s, 1); CW(this, 2) = CW(s, 2); CW(this, 3) = CW(s, 3); SZ(s) = 0; }
+_Bool _ZNKSt7__cxx1112basic_stringIcSt11char_traitsIcESaIcEE5emptyEv(const struct std_string *this) { LIVE((void *)this, 32, "std::string::empty"); return SZ(this) == 0; }
+/* string& append(const string& s, size_t pos, size_t n): the part of s from pos, at most n characters; pos beyond size(s) is std::out_of_range */
+struct std_string *_ZNSt7__cxx1112basic_stringIcSt11char_traitsIcESaIcEE6appendERKS4_mm(struct std_string *this, const struct std_string *s, unsigned long pos, unsigned long n)
+{
+  LIVE(this, 32, "std::string::append(s,pos,n)"); LIVE((void *)s, 32, "std::string::append(arg,pos,n)");
+  if (pos > SZ(s)) { __throw_out_of_range(); return this; }
+  unsigned long k = SZ(s) - pos; if (n < k) k = n;
+  __CPROVER_assume(SZ(this) + k <= MAXLEN); SZ(this) = SZ(this) + k; __havoc_str(this); return this;
+}
+/* loop variant of a scan (FIND_SCAN_VARIANT): a text that is searched again is searched from a later position -- a search loop that
+ * does not advance never ends */
+unsigned long g_find_n, g_find_prev_pos; const void *g_find_prev_this;
 /* size_t find(const string&, size_t pos) const: npos or a position p with p + size(s) <= size() */
 unsigned long _ZNKSt7__cxx1112basic_stringIcSt11char_traitsIcESaIcEE4findERKS4_m(const struct std_string *this, const struct std_string *s, unsigned long pos)
-{ LIVE((void *)this, 32, "std::string::find"); LIVE((void *)s, 32, "std::string::find(arg)"); (void)pos; unsigned long p = __g2c_nondet_ulong(); if (__g2c_nondet_bool()) return ~0ul; __CPROVER_assume(p >= pos && p <= SZ(this) && SZ(s) <= SZ(this) - p); return p; }
+{ LIVE((void *)this, 32, "std::string::find"); LIVE((void *)s, 32, "std::string::find(arg)"); (void)pos;
+#ifdef FIND_SCAN_VARIANT
+  __CPROVER_assert(g_find_n == 0 || (const void *)this != g_find_prev_this || pos > g_find_prev_pos, "scan variant: a repeated search of the same text starts behind the previous start (the loop ends)");
+  g_find_n++; g_find_prev_pos = pos; g_find_prev_this = this;
+#endif
+  unsigned long p = __g2c_nondet_ulong(); if (__g2c_nondet_bool()) return ~0ul; __CPROVER_assume(p >= pos && p <= SZ(this) && SZ(s) <= SZ(this) - p); return p; }
 /* std::stod / std::stoll / std::stoull: a number, or std::invalid_argument / std::out_of_range */
 double __g2c_nondet_double(void); long __g2c_nondet_long(void);
 char _ZTISt16invalid_argument_obj[16];
